@@ -1,6 +1,7 @@
 SPECIFICATION Spec
 CONSTANTS
-  Fams = {"exact", "prelu", "table"}
+  Fams = {"exact", "prelu", "table", "long"}
+  LongSizes = {40003, 70001}
   MaxRank = 4
   MaxExt = 3
 INVARIANT Laws
